@@ -2050,7 +2050,7 @@ def run(ck, tier, rng):
                      "tx/c10_sites_known.json does not know" % k,
                      {"theorem_or_correspondence": "decomposition of the public API into modelled primitives (C10 site table)", "site": k},
                      concrete=False)
-    any_concrete = concrete > 0 or bool(ck.known_hits)
+    any_concrete = concrete > 0
     ck.broken_build(oracle_found_concrete=any_concrete)
     nseq = len([r for r in results if "ops" in r])
     return ck.finish(
